@@ -1,7 +1,11 @@
 #!/bin/sh
-# Builds the framework offline and pre-warms the Go build cache.
+# Builds the framework offline and pre-warms the Go build cache (plain and instrumented builds).
 export GOFLAGS=-mod=mod GOPROXY=off GOSUMDB=off GOTOOLCHAIN=local
 cd /verif || exit 1
-mkdir -p bin evidence replay
+mkdir -p bin evidence replay .build
 go build -o bin/vcheck ./cmd/vcheck || exit 1
+go build -o bin/instrument ./cmd/instrument || exit 1
+bin/instrument -out /verif/.build/ov-setup >/dev/null || exit 1
+go build -overlay /verif/.build/ov-setup/overlay.json -o bin/vcheck-setup ./cmd/vcheck || exit 1
+rm -f bin/vcheck-setup
 echo setup ok
